@@ -741,6 +741,7 @@ func (vc *VC) execInstr(b *ssa.BasicBlock, in ssa.Instruction, h *Heap, reach st
 		mt := x.Map.Type().Underlying().(*types.Map)
 		has, val, _, _ := vc.mapComps(mt)
 		vc.check("nilmap", reach, not(eq(m.S, "0")), "assignment to entry in nil map")
+		vc.storeInv(reach, v, x.Value.Type(), "a map")
 		hasRow := app("select", vc.get(h, has), m.S)
 		was := app("select", hasRow, k.S)
 		vc.set(h, "Msize", app("store", vc.get(h, "Msize"), m.S, app("+", app("select", vc.get(h, "Msize"), m.S), ite(was, "0", "1"))))
@@ -904,6 +905,9 @@ func (vc *VC) execUnOp(x *ssa.UnOp, h *Heap, reach string) {
 			t := vc.load(h, a)
 			vc.vals[x] = vc.setVal(x, t.S)
 			vc.assume(reach, vc.allocated(h, vc.vals[x]))
+			if _, isLocal := x.X.(*ssa.Alloc); !isLocal {
+				vc.assume(reach, vc.objInv(vc.vals[x].S, x.Type(), 0))
+			}
 			return
 		}
 		if g, ok := x.X.(*ssa.Global); ok {
@@ -1052,6 +1056,9 @@ func (vc *VC) pow2() string {
 
 func (vc *VC) execStore(x *ssa.Store, h *Heap, reach string) {
 	v := vc.value(x.Val)
+	if al, toLocal := x.Addr.(*ssa.Alloc); !toLocal || (al.Heap && !isLocalCell(al)) {
+		vc.storeInv(reach, v, x.Val.Type(), "memory")
+	}
 	if a, ok := vc.addrs[x.Addr]; ok {
 		vc.storeAddr(h, a, v)
 		return
@@ -1243,11 +1250,13 @@ func (vc *VC) execLookup(x *ssa.Lookup, h *Heap, reach string) {
 		if x.CommaOk {
 			vt := mk(vc.define(x.Name()+"_v", vs, v), vs).withType(mt.Elem())
 			vc.assume(reach, vc.allocated(h, vt))
+			vc.assume(and(reach, pd), vc.objInv(vt.S, mt.Elem(), 0))
 			vc.tuples[x] = []Term{vt, mk(pd, SBool)}
 			return
 		}
 		vc.setVal(x, v)
 		vc.assume(reach, vc.allocated(h, vc.vals[x]))
+		vc.assume(and(reach, pd), vc.objInv(vc.vals[x].S, mt.Elem(), 0))
 		return
 	}
 	// string index
@@ -1276,6 +1285,7 @@ func (vc *VC) execNext(x *ssa.Next, h *Heap, reach string) {
 	v := mk(vc.define(x.Name()+"_v", vs, app("select", app("select", vc.get(h, val), it.S), k)), vs).withType(mt.Elem())
 	vc.assume(ok, vc.allocated(h, v))
 	vc.assume(ok, vc.allocated(h, kt))
+	vc.assume(ok, vc.objInv(v.S, mt.Elem(), 0))
 	vc.tuples[x] = []Term{mk(ok, SBool), kt, v}
 	vc.assumptions["map iteration order is arbitrary (each Next yields some present key)"] = true
 }
@@ -1315,7 +1325,10 @@ func (vc *VC) checkReturn(b *ssa.BasicBlock, results []Term, h *Heap, reach stri
 	k := vc.counter("return")
 	sfx := fmt.Sprintf("@ret%d", k)
 	env := vc.retEnv(results, h)
-	if c != nil {
+	if c != nil && c.Trusted != "" {
+		vc.trusted[vc.key+" (trusted contract): "+c.Trusted] = true
+	}
+	if c != nil && c.Trusted == "" {
 		for i, cl := range c.Ensures {
 			s, err := env.evalGoal(cl.Expr)
 			if err != nil {
@@ -1381,7 +1394,7 @@ func (vc *VC) frameObligations(c *Contract, h *Heap, reach, sfx string) {
 					goal = "true"
 					break
 				}
-				excl = append(excl, not(eq("r!f", r)))
+				excl = append(excl, not(allowedCond(r, "r!f")))
 			}
 			if goal == "" {
 				goal = fmt.Sprintf("(forall ((r!f Int)) %s)", implies(and(append([]string{app("<=", "0", "r!f"), app("<=", "r!f", a0)}, excl...)...), eq(app("select", cur, "r!f"), app("select", old, "r!f"))))
@@ -1433,7 +1446,27 @@ func (vc *VC) modItem(env *Env, e *Expr, out map[string][]string) {
 		}
 		panic(evalError{"modifies: no field " + e.Name})
 	case "index":
-		// s[*] : all elements of the array behind slice s ; m[*]: all entries of map m
+		// s[*] : all elements of the array behind slice s ; m[*]: all entries of map m ;
+		// s[*][*]: all entries of every map that is an element of slice s
+		if in := e.Args[0]; in.Op == "index" && len(in.Args) == 2 && in.Args[1].Op == "star" {
+			x, err := env.evalTerm(in.Args[0])
+			if err != nil {
+				panic(evalError{"modifies: " + err.Error()})
+			}
+			if x.Sort == SSlice {
+				if mt, ok := x.T.Underlying().(*types.Slice).Elem().Underlying().(*types.Map); ok {
+					ecomp, _ := vc.elemComp(x.T.Underlying().(*types.Slice).Elem())
+					row := app("select", vc.get(env.heap(), ecomp), app("s.arr", x.S))
+					pred := fmt.Sprintf("λ(exists ((i!m Int)) (and (<= 0 i!m) (< i!m %s) (= %%r (%s %s %s i!m))))", app("s.len", x.S), vc.u.elt(SInt), row, app("s.off", x.S))
+					has, val, _, _ := vc.mapComps(mt)
+					out[has] = append(out[has], pred)
+					out[val] = append(out[val], pred)
+					out["Msize"] = append(out["Msize"], pred)
+					return
+				}
+			}
+			panic(evalError{"modifies: cannot interpret " + e.String()})
+		}
 		x, err := env.evalTerm(e.Args[0])
 		if err != nil {
 			panic(evalError{"modifies: " + err.Error()})
@@ -1487,4 +1520,22 @@ func (vc *VC) modItem(env *Env, e *Expr, out map[string][]string) {
 		}
 	}
 	panic(evalError{"modifies: cannot interpret " + e.String()})
+}
+
+// a local variable cell (var x object.Object) may legitimately hold nil
+func isLocalCell(a *ssa.Alloc) bool {
+	et := a.Type().Underlying().(*types.Pointer).Elem()
+	if _, isArr := et.Underlying().(*types.Array); isArr {
+		return false
+	}
+	return !isModuleStruct(et)
+}
+
+// allowedCond: the condition "location r is one the modifies clause allows" for an entry of the
+// allowed table (a reference term, or a predicate template starting with λ and mentioning %r)
+func allowedCond(entry, r string) string {
+	if strings.HasPrefix(entry, "λ") {
+		return strings.ReplaceAll(strings.TrimPrefix(entry, "λ"), "%r", r)
+	}
+	return eq(r, entry)
 }
